@@ -402,6 +402,26 @@ func (m *Module) apDepth(v ssa.Value, d int) AP {
 		return m.apDepth(x.X, d+1)
 	case *ssa.ChangeInterface:
 		return m.apDepth(x.X, d+1)
+	case *ssa.Alloc:
+		// a local copy of a struct value (`for _, e := range xs` with struct
+		// elements): exactly one whole-value store, otherwise only read
+		if x.Referrers() != nil {
+			var whole *ssa.Store
+			n := 0
+			for _, r := range *x.Referrers() {
+				if st, ok := r.(*ssa.Store); ok && st.Addr == ssa.Value(x) {
+					whole = st
+					n++
+				}
+			}
+			if n == 1 {
+				if _, isStruct := whole.Val.Type().Underlying().(*types.Struct); isStruct {
+					if _, fromLoad := whole.Val.(*ssa.UnOp); fromLoad {
+						return m.apDepth(whole.Val, d+1)
+					}
+				}
+			}
+		}
 	case *ssa.Call:
 		f := m.callee(x.Common())
 		if fld, ok := m.getterField(f); ok && len(x.Call.Args) == 1 {
@@ -924,6 +944,33 @@ func derivedFrom(v, src ssa.Value) bool {
 		in, ok := x.(ssa.Instruction)
 		if !ok {
 			return false
+		}
+		if al, ok := x.(*ssa.Alloc); ok {
+			// a local composite: depends on everything stored into it
+			var stored func(addr ssa.Value, d int) bool
+			stored = func(addr ssa.Value, d int) bool {
+				if d > 3 || addr.Referrers() == nil {
+					return false
+				}
+				for _, r := range *addr.Referrers() {
+					switch y := r.(type) {
+					case *ssa.Store:
+						if y.Addr == addr && walk(y.Val) {
+							return true
+						}
+					case *ssa.FieldAddr:
+						if y.X == addr && stored(y, d+1) {
+							return true
+						}
+					case *ssa.IndexAddr:
+						if y.X == addr && stored(y, d+1) {
+							return true
+						}
+					}
+				}
+				return false
+			}
+			return stored(al, 0)
 		}
 		var ops [12]*ssa.Value
 		for _, op := range in.Operands(ops[:0]) {
